@@ -325,53 +325,91 @@ def r53(ctx, rep):
             rep.violated('R5.3', ms, 'reverse=%s' % rev,
                          'dispatches to %s(%s), expected %s(%s)' % (target, ', '.join(args), want, ', '.join(want_args)), ms.node)
     sl = ctx.project.need_fn('petl.transform.sorts:_shortlistmergesorted')
-    # op selection
-    ops = {}
+    from ..ladder import paths as _paths, resolve as _resolve
+    # the selection call: F(<shortlist>, ...) where every binding of F is min or max
+    binds = {}
     for n in own_nodes(sl.node):
-        if isinstance(n, ast.If) and norm(n.test) in ('reverse', 'not reverse'):
-            pos = norm(n.test) == 'reverse'
-            for branch, truth in ((n.body, pos), (n.orelse, not pos)):
-                for s in branch:
-                    if isinstance(s, ast.Assign) and norm(s.targets[0]) == 'op':
-                        ops[truth] = norm(s.value)
-        if isinstance(n, ast.Assign) and norm(n.targets[0]) == 'op' and isinstance(n.value, ast.IfExp):
-            t = norm(n.value.test)
-            if t == 'reverse':
-                ops[True], ops[False] = norm(n.value.body), norm(n.value.orelse)
-    if ops == {True: 'max', False: 'min'}:
-        rep.held('R5.3', sl, 'op selection', 'max for reverse, min otherwise', sl.node)
+        if isinstance(n, ast.Assign) and len(n.targets) == 1 and isinstance(n.targets[0], ast.Name):
+            binds.setdefault(n.targets[0].id, []).append(n.value)
+
+    def minmax_names(v):
+        alts = [v.body, v.orelse] if isinstance(v, ast.IfExp) else [v]
+        return all(isinstance(x, ast.Name) and x.id in ('min', 'max') for x in alts)
+    selvars = [k for k, vs in binds.items() if vs and all(minmax_names(v) for v in vs)]
+    sel_calls = [n for n in own_nodes(sl.node) if isinstance(n, ast.Call) and isinstance(n.func, ast.Name) and
+                 (n.func.id in selvars or n.func.id in ('min', 'max')) and n.args]
+    if not sel_calls:
+        rep.undecided('R5.3', sl, 'op selection', 'the call that picks the next row was not recognised', sl.node)
+        shortlist = None
     else:
-        rep.violated('R5.3', sl, 'op selection', 'expected max when reverse else min; found %s' % ops, sl.node)
-    idx = [n for n in own_nodes(sl.node) if isinstance(n, ast.Call) and norm(n.func) == 'shortlist.index']
+        sel = sel_calls[0]
+        shortlist = norm(sel.args[0])
+        got = {}
+        for rev in (True, False):
+            for pth in _paths(sl.node.body, {'reverse': rev}):
+                pre = [st for st in pth.effects if not isinstance(st, (ast.For, ast.While))]
+                from ..dtable import _resolve_stmt
+                pre = [_resolve_stmt(st, {'reverse': rev}) for st in pre]
+                got.setdefault(rev, set()).add(norm(_resolve(sel.func, pre)))
+        if got.get(True) == {'max'} and got.get(False) == {'min'}:
+            rep.held('R5.3', sl, 'op selection', 'max for reverse, min otherwise', sl.node)
+        else:
+            rep.violated('R5.3', sl, 'op selection', 'expected max when reverse else min; found %s' % {k: sorted(v) for k, v in got.items()}, sl.node)
+    # the winner's run is located with <shortlist>.index(winner): first of equals (run order)
+    idx = [n for n in own_nodes(sl.node) if isinstance(n, ast.Call) and isinstance(n.func, ast.Attribute) and
+           n.func.attr == 'index' and (shortlist is None or norm(n.func.value) == shortlist)]
     if idx:
         rep.held('R5.3', sl, 'shortlist.index(nxt)', 'the winner is the first of equals (run order)', idx[0])
     else:
         rep.violated('R5.3', sl, 'shortlist.index(nxt)', 'the run of the selected row is not located by index(): ties are no longer '
                      'broken in run order', sl.node)
-    # an exhausted run is removed without disturbing the order of the remaining runs
-    handlers = [h for t in own_nodes(sl.node) if isinstance(t, ast.Try) for h in t.handlers
-                if h.type is not None and norm(h.type) == 'StopIteration']
-    in_loop = [h for h in handlers if any(isinstance(x, (ast.Delete, ast.Call, ast.Assign)) for b in h.body for x in ast.walk(b))]
-    checked = False
-    for h in in_loop:
-        texts = [norm(b) for b in h.body]
-        if texts == ['pass']:
-            continue
-        checked = True
-        ok = all(re.match(r'^(del (shortlist|iterators)\[nextidx\]|(shortlist|iterators)\.pop\(nextidx\))$', t) for t in texts) \
-            and any('shortlist' in t for t in texts) and any('iterators' in t for t in texts)
-        if ok:
-            rep.held('R5.3', sl, 'remove exhausted run', ' ; '.join(texts), h)
-        else:
-            rep.violated('R5.3', sl, 'remove exhausted run: ' + ' ; '.join(texts)[:80],
-                         'an exhausted run must be removed by deleting its slot from both lists (order-preserving): any other '
-                         'bookkeeping (e.g. moving the last run into the slot) changes the position of the remaining runs, '
-                         'and ties are broken by position', h)
-    if not checked:
-        rep.undecided('R5.3', sl, 'remove exhausted run', 'removal of exhausted runs not recognised', sl.node)
+    # an exhausted run is removed without disturbing the order of the remaining runs: the slot is deleted from both
+    # parallel lists (del L[i] / L.pop(i)); nothing is moved into it
+    lists = set()
+    if shortlist:
+        lists.add(shortlist)
+    for n in own_nodes(sl.node):
+        if isinstance(n, ast.Call) and norm(n.func) == 'next' and n.args and isinstance(n.args[0], ast.Subscript):
+            lists.add(norm(n.args[0].value))
+    removals = {}
+    moves = []
+    in_while = [x for w in own_nodes(sl.node) if isinstance(w, ast.While) for b in w.body for x in ast.walk(b)]
+    for n in in_while:
+        if isinstance(n, ast.Delete):
+            for t in n.targets:
+                if isinstance(t, ast.Subscript) and norm(t.value) in lists and not isinstance(t.slice, ast.Slice):
+                    removals.setdefault(norm(t.value), []).append(n)
+        if isinstance(n, ast.Call) and isinstance(n.func, ast.Attribute) and n.func.attr == 'pop' and norm(n.func.value) in lists \
+                and n.args:
+            removals.setdefault(norm(n.func.value), []).append(n)
+        if isinstance(n, ast.Call) and isinstance(n.func, ast.Attribute) and norm(n.func.value) in lists and \
+                n.func.attr in ('remove', 'insert', 'reverse', 'sort') or \
+                (isinstance(n, ast.Call) and isinstance(n.func, ast.Attribute) and n.func.attr == 'pop' and
+                 norm(n.func.value) in lists and not n.args):
+            moves.append(n)
+        if isinstance(n, ast.Assign) and any(isinstance(t, ast.Subscript) and norm(t.value) in lists and
+                                             isinstance(n.value, ast.Subscript) and norm(n.value.value) in lists
+                                             for t in n.targets):
+            moves.append(n)         # L[i] = L[-1]: a run changes position
+    if len(lists) < 2:
+        rep.undecided('R5.3', sl, 'remove exhausted run', 'the parallel lists of runs were not recognised', sl.node)
+    elif moves:
+        rep.violated('R5.3', sl, 'remove exhausted run: ' + norm(moves[0])[:60],
+                     'an exhausted run must be removed by deleting its slot from both lists (order-preserving): any other '
+                     'bookkeeping (e.g. moving the last run into the slot) changes the position of the remaining runs, '
+                     'and ties are broken by position', moves[0])
+    elif all(l in removals for l in lists):
+        rep.held('R5.3', sl, 'remove exhausted run', ' ; '.join(sorted(norm(r[0]) for r in removals.values())), sl.node)
+    else:
+        rep.violated('R5.3', sl, 'remove exhausted run',
+                     'an exhausted run is not removed from %s: the merge keeps selecting from a run that has ended'
+                     % sorted(l for l in lists if l not in removals), sl.node)
     hq = ctx.project.need_fn('petl.transform.sorts:_heapqmergesorted')
     keyed = [n for n in ast.walk(hq.node) if isinstance(n, ast.Call) and norm(n.func) == '_Keyed']
-    if keyed and [norm(a) for a in keyed[0].args] == ['key(obj)', 'obj']:
+    kp = hq.posparams[0] if hq.posparams else 'key'
+    good = bool(keyed) and all(len(k.args) == 2 and isinstance(k.args[0], ast.Call) and norm(k.args[0].func) == kp and
+                               len(k.args[0].args) == 1 and norm(k.args[0].args[0]) == norm(k.args[1]) for k in keyed)
+    if good:
         rep.held('R5.3', hq, '_Keyed(key(obj), obj)', 'heap items compare by key only (with C04 R4.2)', keyed[0])
     else:
         rep.violated('R5.3', hq, '_Keyed(key(obj), obj)', 'heap items must be _Keyed(key(obj), obj)', hq.node)
